@@ -115,3 +115,28 @@ Proof.
                                      (dmem_false_notin _ _ (proj2 checks_not_in_key))).
 Qed.
 Print Assumptions checks_not_in_key_ok.
+
+(* the cache is effective: after a run of w in which no package failed, a run of any world that differs from w
+   at most in the check selection (staticcheck.conf `checks`, -checks) performs no analysis at all *)
+Theorem rerun_no_analysis :
+  forall (V F R K : Type) (K_eq_dec : forall a b : K, {a = b} + {a <> b})
+         (H : list (ival V F) -> K), (forall a b, H a = H b -> a = b) ->
+  forall (analyse : inp V F -> option (F * R)),
+    (forall i i', (forall d, In d relevant_assumed -> get i d = get i' d) -> analyse i = analyse i') ->
+  forall (h : list (hop V K)) (w0 w w' : world V),
+    Forall2 (same_pkg V) w w' ->
+    (forall x, In x (ref_run V F R analyse w) -> snd x <> OFailed) ->
+    analyses V F R K K_eq_dec key_fields H analyse w'
+             (fst (run V F R K K_eq_dec key_fields H analyse w
+                       (snd (after V F R K K_eq_dec key_fields H analyse h w0 empty)))) = 0.
+Proof.
+  exact (fun V F R K dec H Hinj an Hrel h w0 w w' HF Hok =>
+           rerun_no_analysis_generic V F R K dec key_fields relevant_assumed H Hinj an Hrel
+             (dsubset_incl _ _ relevant_in_key)
+             (dmem_false_notin _ _ (proj1 checks_not_in_key)) (dmem_false_notin _ _ (proj2 checks_not_in_key))
+             w w' _
+             (cache_inv_after V F R K dec key_fields relevant_assumed H Hinj an Hrel
+                              (dsubset_incl _ _ relevant_in_key) h w0 empty (inv_empty V F R K key_fields H an))
+             HF Hok).
+Qed.
+Print Assumptions rerun_no_analysis.
